@@ -100,6 +100,25 @@ def gen(rng, tier):
             'prior_call': rng.random() < 0.2 and not any(r > 100000 for fl in files for r in fl['rows'])}
 
 
+def sweep(tier):
+    """Columns whose byte size in one file is exactly a power of two (1..32 MiB) or a small multiple of one: the
+    sizes at which a chunked / buffered write loop of the pipe has an empty, or a full, last piece."""
+    import random
+    from e2_world import catalog as C
+    sizes = [(1 << k, 'u8', []) for k in range(20, 26)] + [(1 << 24, 'f4', [2, 2]), (3 << 23, 'u8', []), (1 << 22, 'u2', [])]
+    if tier == 'thorough':
+        sizes += [(1 << 26, 'u8', []), (5 << 22, 'f8', [2, 2]), ((1 << 24) + 8, 'u8', []), ((1 << 24) - 8, 'u8', [])]
+    for i, (nbytes, dt, inner) in enumerate(sizes):
+        rowbytes = np.dtype(dt).itemsize * int(np.prod(inner or [1]))
+        rows = nbytes // rowbytes
+        cols = [{'name': 'col0', 'dtype': dt, 'inner': inner}, {'name': 'col1', 'dtype': 'i4', 'inner': []}]
+        files = [{'name': 'f0.asdf', 'rows': [rows, 3], 'seed': 100 + i}]
+        if i % 2:
+            files.append({'name': 'f1.asdf', 'rows': [5, 0], 'seed': 200 + i})
+        yield {'cols': cols, 'files': files, 'request': ['col0', 'col1'], 'fault': {'kind': None},
+               'knobs': C.gen_knobs(random.Random(i)), 'failed_call_before': False, 'prior_call': False}
+
+
 def _array(col, rows, seed):
     r = np.random.default_rng(seed)
     shape = (rows,) + tuple(col['inner'])
